@@ -157,9 +157,16 @@ def gen_update_case(r, tier):
                 payload = payload[: r.randrange(0, 8)]
             kind = "to-" + cls
         frames.append((kind, payload))
+    together = r.random() < 0.25      # several frames waiting in the RX FIFO for ONE update()
+    if together:
+        # ... the last of them one that must be dropped
+        bad = pack_hdr(r.choice([0o7, 0o70, 0o6001, 0o1]), r.choice([0, addr, 0o6, 0o100]), r.randrange(65536),
+                       r.choice([0, 1, 65, 195, 196, 198]), r.choice([0, 3, 200])) + bytes(r.randrange(256) for _ in range(r.choice([0, 1, 2])))
+        if not (spec(bad[0] | bad[1] << 8) and spec(bad[2] | bad[3] << 8)):
+            frames = frames[:2] + [("dropped-last", bad)]
     for kind, payload in frames:
         ops.append(("inject", 0, r.choice([0, 1, 1, 2, 5]), payload))
-        if r.random() < 0.75:
+        if not together and r.random() < 0.75:
             ops += [("update",), ("air",)]
     ops += [("update",), ("air",), ("update",), ("air",)]
     return specs, ops, {"role": role, "addr": addr, "frames": [(k, p.hex()) for k, p in frames]}
@@ -184,6 +191,12 @@ class UpdateChecker:
                 return ("C15/update-reports-a-dropped-frame",
                         "update() returned message type %d; no frame of that type with valid origin and destination was received "
                         "(received: %s)" % (t, [p.hex() for p in self.pending]))
+            h = obj.frame_buf.header
+            if t not in (0, 131) and not (spec(h.to_node) and spec(h.from_node)):
+                # update() hands (message type, frame_buf) to the caller -- and to the mesh layer above it -- as a pair
+                return ("C15/update-reports-a-type-with-a-dropped-frame-in-frame_buf",
+                        "update() returned %d while frame_buf holds %s (invalid address: that frame was dropped); received: %s"
+                        % (t, h.to_string(), [p.hex() for p in self.pending]))
             self.last_update = (list(self.pending), len(obj.queue._queue))
             self.pending = []
         return None
